@@ -101,7 +101,8 @@ type blockDigest struct {
 func digestBlock(n *chain.Node, resp *abci.ResponseFinalizeBlock) blockDigest {
 	d := blockDigest{AppHash: hex.EncodeToString(resp.AppHash), Stores: n.StoreHashes()}
 	for _, r := range resp.TxResults {
-		d.Results = append(d.Results, fmt.Sprintf("%d|%s|%x", r.Code, r.Codespace, r.Data))
+		// code, codespace, data and the gas figures: all of them enter the block's results hash
+		d.Results = append(d.Results, fmt.Sprintf("%d|%s|%x|gas %d/%d", r.Code, r.Codespace, r.Data, r.GasUsed, r.GasWanted))
 	}
 	return d
 }
